@@ -1,3 +1,24 @@
+# C10 - recipients are routed and rewritten exactly by the control files.
+#
+# obligations:  constmap_lemma   constmap.c: constmap_init+constmap == case-insensitive exact-match lookup (plain and key:value images)
+#               rewrite          qmail-send.c rewrite() == reference model of qmail-send(8)/addresses(5), constmap() cut under that lemma
+#               senderadd        qmail-send.c senderadd(): VERP expansion pre@host-@[] -> pre+box=dom@host
+#               regetcontrols    qmail-send.c regetcontrols(): two HUPs, tables rebuilt over buffers holding the fresh files
+#               todo_channels    qmail-send.c todo_do() T branch: each recipient once, in order, to the channel rewrite() chose
+# not here:     failure paths of todo_do (C03), control_readfile parsing.
+#
+# kills: (hand-made mutants of a scratch worktree, VERIF_REPO=/tmp/wt-c10-1 ./check C10 --only <obl>; each printed VIOLATION, native replay rc 1)
+#   rewrite:        vd_before_locals (virtualdomains consulted before locals), no_catchall ("|| (i == addr.len)" removed),
+#                   percent_once (break after the first percent-hack round), no_dash ('-' after the prepend dropped),
+#                   exception_continue (empty prepend: continue to less specific entries instead of break), first_at (domain taken after the FIRST @)
+#   constmap_lemma: case_sensitive (case_diffb.c without folding), hash_case (constmap.c hash() without folding)
+#   senderadd:      verp_no_eq ('=' replaced by '-'), verp_keep_suffix (host copied one byte too long: keeps the '-' of "-@[]")
+#   regetcontrols:  reget_init_before_copy (constmap_init(&maplocals) before stralloc_copy(&locals,&newlocals)),
+#                   reget_vd_from_new (table built over the read buffer newvdoms), reget_free_early (constmap_free before the files are read)
+#   todo_channels:  todo_swap (remote recipients written to local/), todo_merge (record written without its NUL: recipients merge),
+#                   todo_noflag (flagchan[c] never set: message not scheduled on its channel)
+#   not a VIOLATION but exit 2: a mutant that removes a callee named in an unwind key (e.g. str_rchr -> str_chr in senderadd) is
+#   reported as "unwind keys match no loop" by the driver.
 from vlib import Obl, Prog
 
 
@@ -57,28 +78,32 @@ STRALLOC = ["stralloc_opys.c", "stralloc_opyb.c", "stralloc_cats.c", "stralloc_c
 
 
 def obligations(tier):
-    rls = [0, 1, 2, 3, 4, 5] if tier == "quick" else [0, 1, 2, 3, 4, 5, 6, 7]
+    rls = [0, 1, 2, 3, 4, 5, 6] if tier == "quick" else [0, 1, 2, 3, 4, 5, 6, 7, 8, 9]
+    big = 900 if tier == "quick" else 3000
     return [
         Obl("rewrite", "rewrite.c",
             progs=[Prog("qmail-send.c", nomain=True)],
-            repo=STRALLOC, lib=["arena_stralloc.c"],
+            repo=STRALLOC, lib=["harness/C10/arena_small.c"],
             defines={"ARENA_SLOTS": 2, "KMAX": 4},
-            grid=[{"R": r, "ARENA_CAP": r + 10} for r in rls],
+            grid=[{"R": r, "ARENA_CAP": r + 10} for r in reversed(rls)]       # longest first
+                 + ([] if tier == "quick" else
+                    # larger tables at a mid-size recipient: 3 virtualdomains entries with keys up to 5 bytes, 3 locals up to 4 bytes, 2 percenthack
+                    [{"R": 5, "ARENA_CAP": 17, "NVD": 3, "VKMAX": 5, "KMAX": 5, "NLOC": 3, "LOCMAX": 4, "NPH": 2, "VTMAX": 3, "ENMAX": 3}]),
             # tight per-loop bounds (each is proved sufficient by its unwinding assertion):
             # longest address = R + '@' + envnoathost(2); byte_copy/byte_rchr are unrolled 4x
-            unwind=lambda p: {"strlen": p["R"] + 2,
+            unwind=lambda p: {"strlen": max(p["R"] + 2, p.get("VTMAX", 2) + 2),
                               # both loops of rewrite(): percent hack <= R/2+1 rounds, candidate scan <= R+4 positions
                               # (one function-level key so that a change to either loop cannot orphan the key)
-                              "rewrite": p["R"] + 5,
-                              "byte_copy": (p["R"] + 3) // 4 + 2,
-                              "byte_rchr": (p["R"] + 3) // 4 + 2,
-                              "same": 5},
-            unwind_default=lambda p: p["R"] + 8,
-            backend="cadical", timeout=900,
+                              "rewrite": p["R"] + p.get("ENMAX", 2) + 3,
+                              "byte_copy": (p["R"] + p.get("ENMAX", 2) + 1) // 4 + 2,
+                              "byte_rchr": (p["R"] + p.get("ENMAX", 2) + 1) // 4 + 2,
+                              "same": p.get("KMAX", 4) + 1},
+            unwind_default=lambda p: p["R"] + p.get("ENMAX", 2) + p.get("VTMAX", 2) + 4,
+            backend="cadical", timeout=big,
             functions=["qmail-send.c:rewrite", "byte_rchr.c:byte_rchr", "stralloc_*.c"],
             cuts=["constmap -> case-insensitive exact-match lookup over the harness's symbolic tables (non-null iff listed; "
                   "virtualdomains: pointer to the NUL-terminated prepend), proved on the real constmap.c by obligation constmap_lemma in the same run"],
-            stubs=["stralloc_ready/readyplus: arena (lib/arena_stralloc.c), growth inside the bound is checked"],
+            stubs=["stralloc_ready/readyplus: arena (harness/C10/arena_small.c), growth inside the bound is checked"],
             assumes=["recipient: exactly R bytes, any values except NUL",
                      "locals <= 2 entries x 1..3 bytes, percenthack <= 1 entry x 1..3 bytes, virtualdomains <= 2 entries "
                      "(key 0..4 bytes without ':' and NUL, prepend 0..2 bytes), envnoathost 0..2 bytes without '@'; table sizes and "
@@ -97,7 +122,7 @@ def obligations(tier):
                                         + (["undetermined_fqdn_with_at"] if p["R"] >= 4 else []))),
         Obl("senderadd", "senderadd.c",
             progs=[Prog("qmail-send.c", nomain=True)],
-            repo=STRALLOC, lib=["arena_stralloc.c"],
+            repo=STRALLOC, lib=["harness/C10/arena_small.c"],
             defines={"ARENA_SLOTS": 1, "ARENA_CAP": 32},
             grid=[{"SL": sl, "RL": rl} for sl in ([0, 3, 4, 5, 6, 7, 8] if tier == "quick" else range(0, 12))
                   for rl in ([0, 1, 2, 3, 4] if tier == "quick" else range(0, 8))],
@@ -119,7 +144,7 @@ def obligations(tier):
                                         + (["double_bounce_sender_unchanged"] if p["SL"] >= 4 else []))),
         Obl("regetcontrols", "reget.c",
             progs=[Prog("qmail-send.c", nomain=True)],
-            repo=["stralloc_opyb.c", "stralloc_copy.c", "byte_copy.c"], lib=["arena_stralloc.c"],
+            repo=["stralloc_opyb.c", "stralloc_copy.c", "byte_copy.c"], lib=["harness/C10/arena_small.c"],
             defines={"ARENA_SLOTS": 4, "ARENA_CAP": 8, "FL": 4},
             unwind={"regetcontrols": 2, "byte_copy": 4}, unwind_default=12,
             backend="cadical", timeout=600,
@@ -133,6 +158,26 @@ def obligations(tier):
                   "(plain / key:value), with an unreadable file nothing is released or rebuilt; after every HUP the buffer under each "
                   "table holds exactly the last successfully read file (also when a later, failing reread has overwritten the read buffers)",
             expect_witnesses=["reread_failed", "reread_both", "reread_no_virtualdomains", "second_reread_failed", "second_reread_ok"]),
+        Obl("todo_channels", "todo_channels.c",
+            progs=[Prog("qmail-send.c", nomain=True, cut=["rewrite"])],
+            repo=["fmtqfn.c", "fmt_ulong.c", "fmt_str.c", "scan_ulong.c", "auto_split.c", "open_read.c", "open_excl.c", "substdio.c",
+                  "stralloc_pend.c", "stralloc_opyb.c", "stralloc_opys.c", "byte_copy.c"],
+            lib=["harness/C10/arena_small.c", "ideal_substdio.c", "ideal_getln.c"],
+            sysrename=["open", "stat", "unlink", "fsync", "close", "readdir", "time"],
+            defines={"ARENA_SLOTS": 3, "ARENA_CAP": 48},
+            grid=[{"K": k} for k in ([0, 1, 2, 3] if tier == "quick" else [0, 1, 2, 3, 4])],
+            unwind=lambda p: {"todo_do~for (;;)": p["K"] + 5, "strlen": 48, "strcmp": 8},
+            unwind_default=lambda p: 4 * p["K"] + 24,
+            backend="cadical", timeout=900, std_checks=True,
+            functions=["qmail-send.c:todo_do", "qmail-send.c:fnmake_*", "fmtqfn.c:fmtqfn", "scan_ulong.c", "fmt_ulong.c"],
+            cuts=["rewrite -> channel from a symbolic tape, rwline = 'T' + symbolic tag + recipient + NUL (what rewrite() really returns: obligation rewrite)"],
+            stubs=["open/stat/unlink/fsync/close/readdir: always succeed (failure paths: C03)", "substdio/getln: ideal streams",
+                   "prioq_insert, time, log*: observing stubs"],
+            assumes=["todo/7 = u, p, F records and K recipient records of one symbolic byte each; every system call succeeds"],
+            outside=["failing system calls, crash points, the todo/ directory scan and trigger (C03, C16)"],
+            claim="todo_do() passes each of the K recipients once, in order, to rewrite() and appends rwline to local/7 or remote/7 as rewrite() "
+                  "returned; nothing else is written there; a channel file is created and the message scheduled on a channel iff it has recipients",
+            expect_witnesses=lambda p: ["preprocessed"] + (["no_recipients"] if p["K"] == 0 else ["local_only"]) + (["both_channels"] if p["K"] >= 2 else [])),
         Obl("constmap_lemma", "constmap_lemma.c",
             repo=["constmap.c", "case_diffb.c"],
             sysrename=["malloc", "free"],
